@@ -552,9 +552,361 @@ def check_echo_case(case):
     return None
 
 
+# --------------------------------------------------------------------------- long-lived objects (statefulness)
+# One SignedSerializer / Base64Serializer / CookieProfile / SignedCookieProfile instance serves a long interleaving of
+# different calls; every answer must equal what a brand-new, identically constructed object answers for that single call
+# (and, for loads / get_value / dumps, what the independent reference says), read-only calls must leave the object's
+# attributes alone, and bound copies must not affect the unbound profile or each other.
+LONG_SECRETS = [("a" * 150 + "1", "salt"), ("a" * 150 + "2", "salt"), ("k", "s" * 140 + "1"), ("k", "s" * 140 + "2"),
+                ("\xe9" * 70 + "1", "ns"), ("\xe9" * 70 + "2", "ns")]
+
+
+def ref_loads(secret, salt, alg, tok):
+    """(True, canonical value) iff the token carries a full-length valid tag over JSON, else (False, 'ValueError')"""
+    d = ref_decode(tok)
+    ds = DSIZE[alg]
+    if d is None or len(d) < ds or not real_hmac.compare_digest(real_hmac.new(ref_key(secret, salt), d[ds:], alg).digest(), d[:ds]):
+        return False, "ValueError"
+    try:
+        return True, canon(json.loads(d[ds:].decode("utf-8")))
+    except ValueError:
+        return False, "ValueError"
+
+
+def ref_b64_loads(tok):
+    if isinstance(tok, str):
+        try:
+            tok = tok.encode("latin-1")
+        except UnicodeEncodeError:
+            return False, "ValueError"
+    try:
+        return True, canon(json.loads(base64.urlsafe_b64decode(tok).decode("utf-8")))
+    except ValueError:
+        return False, "ValueError"
+
+
+def ref_obs(ok, r):
+    return ["value", r] if ok else ["raises", r]
+
+
+def obs(ok, r):
+    """canonical, comparable form of one answer"""
+    if not ok:
+        return ["raises", r]
+    if isinstance(r, (bytes, bytearray)):
+        return ["bytes", bytes(r).hex()]
+    return ["value", canon(r)]
+
+
+def obs_headers(ok, r):
+    return ["headers", [str(x) for x in r]] if ok else ["raises", r]
+
+
+def ser_snapshot(s):
+    from webob.cookies import SignedSerializer
+    if isinstance(s, SignedSerializer):
+        return ["signed", repr(s.salt), repr(s.secret), s.hashalg, s.salted_secret.hex(), s.digest_size,
+                type(s.serializer).__name__]
+    return [type(s).__name__, type(getattr(s, "serializer", None)).__name__]
+
+
+def profile_snapshot(p):
+    return [type(p).__name__, p.cookie_name, repr(p.secure), repr(p.max_age), repr(p.httponly), repr(p.samesite), p.path,
+            repr(p.domains), ser_snapshot(p.serializer)] + \
+        ([repr(p.secret), repr(p.salt), p.hashalg] if hasattr(p, "hashalg") else [])
+
+
+def new_object(case):
+    """the long-lived object of a history, freshly constructed"""
+    from webob.cookies import Base64Serializer, CookieProfile
+    secret, salt, alg, obj = case["secret"], case["salt"], case["alg"], case["obj"]
+    name, domains = case.get("name", "session"), case.get("domains") or None
+    if obj == "serializer":
+        return make_serializer(secret, salt, alg)
+    if obj == "b64ser":
+        return Base64Serializer()
+    if obj == "signed-profile":
+        return make_profile(secret, salt, alg, name, domains)
+    if obj == "custom-profile":
+        return CookieProfile(name, domains=domains, serializer=make_serializer(secret, salt, alg))
+    if obj == "plain-profile":
+        return CookieProfile(name, domains=domains)
+    raise ValueError(obj)
+
+
+def tok_of(op):
+    return op[1] if op[2] == "str" else bytes.fromhex(op[1])
+
+
+def serializer_call(s, op):
+    if op[0] == "dumps":
+        return obs(*run_catch(s.dumps, json.loads(op[1])))
+    return obs(*run_catch(s.loads, tok_of(op)))
+
+
+def profile_expect_get(case, header):
+    """reference answer of get_value for the profile kind of `case` bound to a request with Cookie: header"""
+    delivered = jar_lookup(header, case.get("name", "session"))
+    if delivered in (None, "raises"):
+        return ["value", "null"]
+    if case["obj"] == "plain-profile":
+        ok, r = ref_b64_loads(delivered)
+    else:
+        ok, r = ref_loads(case["secret"], case["salt"], case["alg"], delivered)
+    return ["value", r if ok else "null"]
+
+
+def check_history_case(case):
+    """None, or (key, message) for the first step whose answer differs from a fresh object's / the reference's, or that
+    changed the state of the long-lived object or of another bound copy."""
+    from webob import Response
+    obj = case["obj"]
+    x = new_object(case)
+    is_profile = obj.endswith("profile")
+    snap = profile_snapshot(x) if is_profile else ser_snapshot(x)
+    bound = []          # [bound copy, its request, snapshot]
+    for k, op in enumerate(case["ops"]):
+        where = "step %d %r on one long-lived %s (%s/%r/%r)" % (k, op, obj, case["alg"], case["secret"], case["salt"])
+        if not is_profile:
+            got = serializer_call(x, op)
+            fresh = serializer_call(new_object(case), op)
+            ref = None
+            if op[0] == "loads":
+                ref = ref_obs(*(ref_loads(case["secret"], case["salt"], case["alg"], tok_of(op)) if obj == "serializer"
+                                else ref_b64_loads(tok_of(op))))
+            elif obj == "serializer" and got[0] == "bytes":
+                # compared on the octets the issued token stands for
+                got_d = ref_decode(bytes.fromhex(got[1]))
+                if got_d != ref_signed(case["secret"], case["salt"], case["alg"], ref_ser(json.loads(op[1]))):
+                    return "history:answer-differs-from-reference", "%s issued %r, which is not tag+payload" % (where, got)
+            if got != fresh:
+                return "history:answer-differs-from-fresh-object", "%s: %r, a fresh object answers %r" % (where, got, fresh)
+            if ref is not None and got != ref:
+                return "history:answer-differs-from-reference", "%s: %r, reference %r" % (where, got, ref)
+            if ser_snapshot(x) != snap:
+                return "history:object-state-changed", "%s changed the object's attributes: %r -> %r" % (where, snap, ser_snapshot(x))
+            continue
+        # ---- profiles
+        t = op[0]
+        if t in ("get_headers", "set_cookies"):
+            v = json.loads(op[1])
+            f = (lambda p: [h for _, h in p.get_headers(v)]) if t == "get_headers" else \
+                (lambda p: [h for n_, h in p.set_cookies(Response(), v).headerlist if n_ == "Set-Cookie"])
+            got, fresh = obs_headers(*run_catch(f, x)), obs_headers(*run_catch(f, new_object(case)))
+        elif t == "unbound_get":
+            got, fresh = obs(*run_catch(x.get_value)), ["raises", "ValueError"]
+        elif t == "bind":
+            req = make_request(op[1])
+            b = x.bind(req) if op[2] == "bind" else x(req)
+            bound.append([b, req, profile_snapshot(b)])
+            got = obs(*run_catch(b.get_value))
+            fresh = obs(*run_catch(new_object(case).bind(make_request(op[1])).get_value))
+            ref = profile_expect_get(case, op[1])
+            if got != ref:
+                return "history:answer-differs-from-reference", "%s: %r, reference %r" % (where, got, ref)
+        elif t in ("requery", "recookie"):
+            if not bound:
+                continue
+            b, req, _ = bound[op[1] % len(bound)]
+            if t == "recookie":
+                if op[2] is None:
+                    req.environ.pop("HTTP_COOKIE", None)
+                else:
+                    req.environ["HTTP_COOKIE"] = op[2]
+            header = req.environ.get("HTTP_COOKIE")
+            got = obs(*run_catch(b.get_value))
+            fresh = obs(*run_catch(new_object(case).bind(make_request(header)).get_value))
+            ref = profile_expect_get(case, header)
+            if got != ref:
+                return "history:answer-differs-from-reference", "%s (Cookie now %r): %r, reference %r" % (where, header, got, ref)
+        else:
+            raise ValueError(op)
+        if got != fresh:
+            return "history:answer-differs-from-fresh-object", "%s: %r, a fresh object answers %r" % (where, got, fresh)
+        if profile_snapshot(x) != snap or x.request is not None:
+            return "history:unbound-profile-changed", "%s changed the unbound profile: %r -> %r (request %r)" % (
+                where, snap, profile_snapshot(x), x.request)
+        for j, (b, req, bsnap) in enumerate(bound):
+            if profile_snapshot(b) != bsnap or b.request is not req:
+                return "history:bound-copy-changed", "%s changed bound copy #%d: %r -> %r" % (where, j, bsnap, profile_snapshot(b))
+    return None
+
+
+def check_order_case(case):
+    """Single calls on fresh objects, executed in the given order within one process: each answer must be the
+    reference's whatever was executed before (module-level state)."""
+    for k, c in enumerate(case["calls"]):
+        secret, salt, alg = c["secret"], c["salt"], c["alg"]
+        if c["call"] == "loads":
+            tok = bytes.fromhex(c["token"])
+            got = obs(*run_catch(make_serializer(secret, salt, alg).loads, tok))
+            ref = ref_obs(*ref_loads(secret, salt, alg, tok))
+        elif c["call"] == "dumps":
+            got = obs(*run_catch(make_serializer(secret, salt, alg).dumps, json.loads(c["value"])))
+            ref = got
+            if got[0] != "bytes" or ref_decode(bytes.fromhex(got[1])) != ref_signed(secret, salt, alg, ref_ser(json.loads(c["value"]))):
+                ref = ["bytes", ref_token(secret, salt, alg, json.loads(c["value"])).hex()]
+        else:
+            got = obs(*run_catch(make_profile(secret, salt, alg, "session").bind(make_request(c["header"])).get_value))
+            ref = profile_expect_get({"obj": "signed-profile", "secret": secret, "salt": salt, "alg": alg}, c["header"])
+        if got != ref:
+            return "order:answer-depends-on-earlier-calls", ("call #%d %r answered %r, reference %r, after the %d earlier calls of "
+                                                             "this sequence" % (k, c, got, ref, k))
+    return None
+
+
+def shrink_history(case, check):
+    """greedy removal of operations while the case still fails (keeps replays short)"""
+    key = check(case)
+    if not key:
+        return case
+    field = "ops" if "ops" in case else "calls"
+    ops = list(case[field])
+    i = len(ops) - 1
+    budget = 400
+    while i >= 0 and budget > 0:
+        trial = dict(case, **{field: ops[:i] + ops[i + 1:]})
+        budget -= 1
+        r = check(trial)
+        if r and r[0] == key[0]:
+            ops = trial[field]
+        i -= 1
+    return dict(case, **{field: ops})
+
+
+def token_pool(secret, salt, alg, rng, plain=False):
+    """valid, tampered (incl. same long prefix), foreign and junk tokens for one configuration"""
+    vals = [rng.choice(PAYLOADS[1:-1]) for _ in range(2)] + [{"n": rng.randrange(100)}, rand_json(rng)]
+    own = [base64.urlsafe_b64encode(ref_ser(v)) if plain else ref_token(secret, salt, alg, v) for v in vals]
+    pool = list(own)
+    for t in own:
+        last = bytes([ALPHABET[(ALPHABET.index(t[-1]) + 17) % 64]]) if t[-1:] != b"=" else b"A"
+        pool += [t[:-1] + last, t[:-2], t + b"A", t + b"==", mutate_bytes(rng, t), t[:len(t) // 2] + own[0][len(t) // 2:]]
+    if not plain:
+        s2 = secret[:-1] + chr(ord(secret[-1]) ^ 1) if secret else "x"
+        l2 = (salt[:-1] + chr(ord(salt[-1]) ^ 1)) if salt else "x"
+        for v in vals[:2]:
+            pool += [ref_token(s2, salt, alg, v), ref_token(secret, l2, alg, v), ref_token(secret, salt, ALGS[(ALGS.index(alg) + 1) % 4], v),
+                     base64.urlsafe_b64encode(ref_ser(v))]
+    pool += [rand_junk(rng), b"", b"="]
+    return vals, own, pool
+
+
+def gen_history(rng, obj, secret, salt, alg, length):
+    name = rng.choice(NAMES)
+    case = {"kind": "history", "obj": obj, "secret": secret, "salt": salt, "alg": alg, "name": name,
+            "domains": rng.choice([[], [], ["example.com"]])}
+    vals, own, pool = token_pool(secret, salt, alg, rng, plain=obj in ("b64ser", "plain-profile"))
+    ops = []
+    for _ in range(length):
+        if not obj.endswith("profile"):
+            r = rng.random()
+            if r < 0.25:
+                ops.append(["dumps", json.dumps(rng.choice(vals))])
+            else:
+                tok = rng.choice(own) if rng.random() < 0.4 else rng.choice(pool)
+                if rng.random() < 0.25:
+                    ops.append(["loads", tok.decode("latin-1") + rng.choice(["", "", "Ā"]), "str"])
+                else:
+                    ops.append(["loads", tok.hex(), "bytes"])
+        else:
+            r = rng.random()
+            tok = rng.choice(own) if rng.random() < 0.45 else rng.choice(pool)
+            header = rng.choice(cookie_spellings(tok, name, rng) + [None, "other=1"])
+            if r < 0.12:
+                ops.append(["get_headers", json.dumps(rng.choice(vals))])
+            elif r < 0.22:
+                ops.append(["set_cookies", json.dumps(rng.choice(vals))])
+            elif r < 0.28:
+                ops.append(["unbound_get"])
+            elif r < 0.62:
+                ops.append(["bind", header, rng.choice(["bind", "call"])])
+            elif r < 0.8:
+                ops.append(["requery", rng.randrange(50)])
+            else:
+                ops.append(["recookie", rng.randrange(50), header])
+    case["ops"] = ops
+    return case
+
+
+def clean_run(case):
+    """run a history from the module state a new process has, so that what fails here fails in its replay"""
+    fresh_module()
+    return run_case(case)
+
+
+def histories(ctx):
+    rng = ctx.sub_rng("histories")
+    pairs = list(SECRETS[:6]) + LONG_SECRETS
+    n_hist, length = ctx.scale(3, 20), ctx.scale(40, 150)
+    cnt = 0
+    for obj in ("serializer", "b64ser", "signed-profile", "custom-profile", "plain-profile"):
+        for i in range(n_hist * (1 if obj in ("b64ser", "plain-profile") else 4)):
+            secret, salt = pairs[(i * 5 + len(obj)) % len(pairs)]
+            case = gen_history(rng, obj, secret, salt, ALGS[i % 4], length)
+            cnt += 1
+            res = clean_run(case)
+            if res:
+                small = shrink_history(case, clean_run)
+                res = clean_run(small) or res
+                ctx.fail(res[0], res[1], small, True, "histories")
+    ctx.oracle_count("histories", cnt, cnt)
+    # module-level state: the same single calls in several orders within this process
+    calls = []
+    for (secret, salt) in [("secret", "salt"), ("secret", "salt2"), ("secret2", "salt")] + LONG_SECRETS[:2]:
+        for alg in ("sha256", "sha512"):
+            vals, own, pool = token_pool(secret, salt, alg, rng)
+            for t in own[:2] + rng.sample(pool, 4):
+                calls.append({"call": "loads", "secret": secret, "salt": salt, "alg": alg, "token": t.hex()})
+                calls.append({"call": "get_value", "secret": secret, "salt": salt, "alg": alg,
+                              "header": rng.choice(cookie_spellings(t, "session", rng))})
+            calls.append({"call": "dumps", "secret": secret, "salt": salt, "alg": alg, "value": json.dumps(vals[0])})
+    # the same tokens presented to every other configuration as well
+    toks = [c["token"] for c in calls if c["call"] == "loads"][::3]
+    for c0 in [c for c in calls if c["call"] == "dumps"]:
+        for t in toks[:8]:
+            calls.append({"call": "loads", "secret": c0["secret"], "salt": c0["salt"], "alg": c0["alg"], "token": t})
+    cnt = 0
+    for perm in range(ctx.scale(4, 12)):
+        order = list(calls)
+        if perm == 1:
+            order.reverse()
+        elif perm > 1:
+            rng.shuffle(order)
+        case = {"kind": "order", "calls": order}
+        cnt += 1
+        res = clean_run(case)
+        if res:
+            small = shrink_history(case, clean_run)
+            res = clean_run(small) or res
+            ctx.fail(res[0], res[1], small, True, "order")
+    ctx.oracle_count("order", cnt, cnt)
+
+
 CHECKS = {"loads": check_loads_case, "roundtrip": check_roundtrip_case, "get_value": check_get_value_case,
           "profile": check_profile_roundtrip_case, "limit": check_limit_case, "plain": check_plain_case,
-          "echo": check_echo_case, "rawlimit": check_rawlimit_case}
+          "echo": check_echo_case, "rawlimit": check_rawlimit_case, "history": check_history_case,
+          "order": check_order_case}
+
+
+def fresh_module():
+    """Re-execute webob.cookies so that module- and class-level state starts empty (what a replay process sees)."""
+    import importlib
+    import webob.cookies
+    importlib.reload(webob.cookies)
+
+
+def report(ctx, case, res, source):
+    """Record a failing single-call case.  If the case passes once webob.cookies is reloaded, the failure was caused by
+    calls made earlier in this process: its replay alone cannot reproduce it, so it is reported as such (the histories /
+    order sections produce the self-contained replay)."""
+    if case.get("kind") not in ("history", "order"):
+        fresh_module()
+        if not run_case(case):
+            ctx.fail(res[0] + ":only-after-earlier-calls", res[1] + "  [passes on a freshly imported webob.cookies: "
+                     "module- or class-level state]", case, False, source)
+            return
+    ctx.fail(res[0], res[1], case, True, source)
 
 
 def run_case(case):
@@ -630,7 +982,7 @@ def corr_followup(ctx, name, cases, bad, to_oracle_cases):
         for oc in to_oracle_cases(case):
             res = run_case(oc)
             if res:
-                ctx.fail(res[0], res[1], oc, True, "corr")
+                report(ctx, oc, res, "corr")
                 hit = True
                 break
         if not hit:
@@ -874,11 +1226,12 @@ def oracle(ctx):
             n += 1
             res = run_case(case)
             if res:
-                ctx.fail(res[0], res[1], case, True, name)
+                report(ctx, case, res, name)
         ctx.oracle_count(name, n, n if nontrivial is None else nontrivial)
 
     rng = ctx.sub_rng("oracle")
-    configs = [(s, l, a) for (s, l) in SECRETS for a in ALGS]
+    # incl. secrets / salts longer than every hash block (64 / 128 octets) that differ only in their last character
+    configs = [(s, l, a) for (s, l) in SECRETS + LONG_SECRETS for a in ALGS]
 
     # 1. round trip: every payload x every secret/salt x every digest (+ random)
     cases = [{"kind": "roundtrip", "secret": s, "salt": l, "alg": a, "value": json.dumps(v)}
@@ -918,7 +1271,9 @@ def oracle(ctx):
             base = {"kind": "loads", "secret": s, "salt": l, "alg": a, "value": json.dumps(v)}
             for (s2, l2, a2) in [(s, l, x) for x in ALGS if x != a] + [(s, (l or "") + "x", a), (s + "x", l, a), (l or "", s, a),
                                                                       (s, "", a), ("", l, a), (s.upper(), l, a),
-                                                                      ((l or "") + s, "", a), ("", (l or "") + s, a)]:
+                                                                      ((l or "") + s, "", a), ("", (l or "") + s, a),
+                                                                      (s[:-1] + chr(ord(s[-1]) ^ 1) if s else "y", l, a),
+                                                                      (s, l[:-1] + chr(ord(l[-1]) ^ 1) if l else "y", a)]:
                 cases.append(dict(base, token=ref_token(s2, l2, a2, v).hex(), alteration="issued-under %r/%r/%s" % (s2, l2, a2)))
             enc = lambda b: base64.urlsafe_b64encode(b).rstrip(b"=").hex()  # noqa
             k = ref_key(s, l)
@@ -1060,6 +1415,7 @@ def run(ctx):
     build(ctx)
     correspondence(ctx)
     oracle(ctx)
+    histories(ctx)
     ctx.extra["rule"] = (
         "correspondence: generated (secret, salt, digest, JSON value) configurations; for each, the token issued by the real "
         "code, random alterations of it, junk and foreign tokens are presented to the real loads/get_value/get_headers and to "
@@ -1070,7 +1426,12 @@ def run(ctx):
         "(thorough: all 256), insertions, deletions, all truncations, extensions, re-padding, tag/payload splices, "
         "tag prefixes, foreign secret/salt/digest and wrongly derived keys; get_value through a real Request in several "
         "Cookie spellings; Set-Cookie->Cookie leg; every token length around 4093.  Non-trivial = every case (each presents "
-        "a distinct token/config to the implementation); for `limit` only lengths within 4080..4110 are counted.")
+        "a distinct token/config to the implementation); for `limit` only lengths within 4080..4110 are counted.  "
+        "histories: ONE serializer / profile instance of each kind serves an interleaving of dumps/loads resp. "
+        "get_headers/set_cookies/bind+get_value/re-query/re-cookie/unbound get_value with valid, same-prefix-tampered and "
+        "foreign tokens (incl. secrets and salts longer than the hash block differing in the last character); every answer "
+        "must equal a fresh object's and the reference's, and neither the unbound profile nor earlier bound copies may change; "
+        "order: the same single calls in several orders within one process (module-level state).")
     ctx.extra["exhaustive"] = False
     ctx.assume += [
         "HMAC unforgeability is the cryptographic assumption of the property: the theorems prove that any accepted token "
